@@ -423,8 +423,8 @@ class C04(Check):
         H = f"{CLS}._handle_simulation_results"
         return [
             Variant("compare-after-shift-simulate", SIM, S,
-                    "    prior_t_end: float = 0.0 if (variables := self.variables) is None else variables[-1].index[-1]\n    if t_end <= prior_t_end:\n        msg = 'End time point has to be larger than previous end time point'\n        raise ValueError(msg)\n    if self._time_shift is not None:\n        t_end -= self._time_shift\n",
-                    "    if self._time_shift is not None:\n        t_end -= self._time_shift\n    prior_t_end: float = 0.0 if (variables := self.variables) is None else variables[-1].index[-1]\n    if t_end <= prior_t_end:\n        msg = 'End time point has to be larger than previous end time point'\n        raise ValueError(msg)\n",
+                    "    prior_t_end = 0.0 if (variables := self.variables) is None else variables[-1].index[-1]\n    if t_end <= prior_t_end:\n        msg = 'End time point has to be larger than previous end time point'\n        raise ValueError(msg)\n    if self._time_shift is not None:\n        t_end -= self._time_shift\n",
+                    "    if self._time_shift is not None:\n        t_end -= self._time_shift\n    prior_t_end = 0.0 if (variables := self.variables) is None else variables[-1].index[-1]\n    if t_end <= prior_t_end:\n        msg = 'End time point has to be larger than previous end time point'\n        raise ValueError(msg)\n",
                     expect="T1|simulator.py|Simulator.simulate|compare", quick=True),
             Variant("drop-shift-simulate", SIM, S, "    if self._time_shift is not None:\n        t_end -= self._time_shift\n", "",
                     expect="T1|simulator.py|Simulator.simulate|sink", quick=True),
